@@ -474,7 +474,8 @@ func randFcolDt(rng *rand.Rand, wide, row bool, dt int) fcol {
 	c := fcol{Dt: dt, Name: randText(rng, rng.Intn(8)), Locale: randText(rng, rng.Intn(3)), UserType: rng.Intn(1 << 20),
 		Label: []int{}, Catalogue: []int{}, Schema: []int{}, Table: []int{}, TableName: []int{}}
 	if wide {
-		c.Status = []int{0, 0x08, 0x20, 0x28, 0x10, 0x30}[rng.Intn(6)]
+		// the wide formats carry four bytes of status: also bits above the first byte
+		c.Status = []int{0, 0x08, 0x20, 0x28, 0x10, 0x30, 0x100, 0x128, 0x10020, 0x7fffff08, 0x40000000}[rng.Intn(11)]
 	} else {
 		c.Status = []int{0, 0x08, 0x20, 0x28}[rng.Intn(4)]
 	}
